@@ -76,9 +76,10 @@ Definition encode_err (e : rerr) : val :=
 Definition encode_lt (lt : option rterm) : val :=
   match lt with None => VL [] | Some RTCrlf => VL [VN 1] | Some (RTByte b) => VL [VN 0; VN b] end.
 
-(* 1101: (options translated) -> (0 final adv_lt) | (1 kind byte) *)
+(* 1101: (options translated) -> (0 final adv_lt) | (1 kind byte); the rebuild between the two CRLF passes is
+   done by the harness: CRLF cases are driven pass by pass through kind 1107 (see tools/props/C11.py) *)
 Definition run_build (v : val) : val :=
-  match build (decode_config (fld 0 v)) (decode_hir (fld 1 v)) with
+  match build (fun h => h) (decode_config (fld 0 v)) (decode_hir (fld 1 v)) with
   | inr e => encode_err e
   | inl (f, lt) => VL [VN 0; encode_hir f; encode_lt lt]
   end.
@@ -116,7 +117,7 @@ Definition run_look (v : val) : val :=
 Definition run_strip_ban (v : val) : val :=
   let h := decode_hir (fld 0 v) in
   let lt := if as_bool (fld 1 v) then RTCrlf else RTByte (as_N (fld 2 v)) in
-  VL [ match strip_from_match h lt with inl h' => VL [VN 0; encode_hir h'] | inr e => encode_err e end;
+  VL [ match strip_from_match (fun h => h) h lt with inl h' => VL [VN 0; encode_hir h'] | inr e => encode_err e end;
        match ban_check (as_N (fld 3 v)) h with None => VL [VN 0] | Some e => encode_err e end ].
 
 (* 1190: (cps bytes) -> (is_word_cp per cp, rank per byte) *)
